@@ -113,6 +113,34 @@ func c34NewWorld() *c34World {
 	return w
 }
 
+// slash sets the double-sign slashing rate (one block) and reports a double sign of P-Rep k (next block).
+func (w *c34World) slash(k int, rate int64, between func()) {
+	rc, err := w.sim.GoBySetSlashingRates(nil, w.env.Governance(), map[string]icmodule.Rate{
+		icmodule.PenaltyDoubleSign.String(): icmodule.Rate(rate),
+	})
+	if err != nil || !icsim.CheckReceiptSuccess(rc...) {
+		panic(fmt.Sprintf("setSlashingRates failed: %v", err))
+	}
+	if between != nil {
+		between()
+	}
+	rc, err = w.sim.GoByHandleDoubleSignReport(nil, state.SystemAddress, module.DSTProposal, w.sim.BlockHeight(), w.tgts[k])
+	if err != nil || !icsim.CheckReceiptSuccess(rc...) {
+		panic(fmt.Sprintf("double sign report failed: %v", err))
+	}
+}
+
+// stakeFingerprint: the stakes of all accounts and the network totals (to see whether a penalty slashed anything)
+func (w *c34World) stakeFingerprint() string {
+	var sb strings.Builder
+	for _, a := range w.all {
+		sb.WriteString(w.acct(a).stake.String())
+		sb.WriteByte(',')
+	}
+	sb.WriteString(w.sim.TotalStake().String())
+	return sb.String()
+}
+
 // c34MayBond: the bonder lists of the environment (parameter of the model, same table in Driver/C34.lean)
 var c34MayBond = map[int][]int{5: {0, 1, 2}, 6: {1, 0}, 7: {0}}
 
@@ -407,6 +435,29 @@ func c34Case(g *Gen, nOps int) {
 		if n > nOps/3 && g.Intn(6) == 0 {
 			kind = 7
 		}
+		// penalties with slashing: mostly while some bonder has a pending unbond for the P-Rep
+		slashK := -1
+		for _, bi := range []int{5, 6, 7} {
+			for _, u := range w.acct(w.actors[bi]).unbonds {
+				if u.to < 2 {
+					slashK = u.to
+				}
+			}
+		}
+		if (slashK >= 0 && g.Intn(4) == 0) || g.Intn(40) == 0 {
+			if slashK < 0 || g.Intn(5) == 0 {
+				slashK = g.Intn(2)
+			}
+			rate := int64(g.Pick(1, 100, 1000, 1000, 2500, 5000, 9999, 1+g.Intn(9999)))
+			fp := w.stakeFingerprint()
+			w.slash(slashK, rate, nil)
+			applied := 0
+			if w.stakeFingerprint() != fp {
+				applied = 1
+			}
+			g.Emit("slash %d %d %d", slashK, rate, applied)
+			continue
+		}
 		sub := g.Intn(9)
 		if burst && g.Intn(3) != 0 {
 			kind, sub = 0, g.Pick(6, 6, 6, 5, 7)
@@ -685,6 +736,42 @@ func (r *c34Runner) Step(toks []string, o *Oracle) string {
 			r.checkBlock(o, before, -1)
 		}
 		o.Count("idle")
+		return r.w.digest(true)
+	case "slash":
+		if r.w == nil || len(toks) != 4 {
+			return "bad-op"
+		}
+		k, err1 := strconv.Atoi(toks[1])
+		rate, err2 := strconv.ParseInt(toks[2], 10, 64)
+		if err1 != nil || err2 != nil || k < 0 || k >= 2 || rate < 1 || rate >= 10000 {
+			return "bad-op"
+		}
+		before := r.snapshot()
+		fp := r.w.stakeFingerprint()
+		r.w.slash(k, rate, func() { r.checkBlock(o, before, -1); before = r.snapshot() })
+		// the bonders of the P-Rep are touched by the penalty (their balances must not change, checked below)
+		r.checkBlock(o, before, 5, 6, 7)
+		applied := "0"
+		if r.w.stakeFingerprint() != fp {
+			applied = "1"
+			o.Count("slash-applied")
+			for _, bi := range []int{5, 6, 7} {
+				for _, u := range before[r.w.actors[bi].String()].unbonds {
+					if u.to == k {
+						o.Count("slash-with-pending-unbond")
+					}
+				}
+			}
+		} else {
+			o.Count("slash-ignored")
+		}
+		for _, bi := range []int{5, 6, 7} {
+			a := r.w.actors[bi]
+			o.Check(before[a.String()].bal.Cmp(r.w.sim.GetBalance(a)) == 0, "c34-penalty-changes-balance", "bonder %s balance changed by a penalty", a)
+		}
+		if applied != toks[3] {
+			return "slash-param-mismatch"
+		}
 		return r.w.digest(true)
 	case "stake2":
 		if r.w == nil {
